@@ -796,3 +796,43 @@ T('C19', 'tables-remembered-per-ordered-clique', [(CV, _FD_OLD, _FD_NEW % "(cl,)
 K('C19', 'tables-in-sorted-attribute-order', [(CV, "            mu = data.project(cl)\n            ans[cl] = Factor(mu.domain, mu.datavector())\n",
                                                  "            mu = data.project(sorted(cl))\n            ans[cl] = Factor(mu.domain, mu.datavector())\n")], 'loss-form')
 
+# ------------------------------------------------------------------ round 13: the rules added for its pairs
+_GN = "        return self.prng.normal(0, sigma, size)\n"
+_LN = "        return self.prng.laplace(0, b, size)\n"
+K('C20', 'laplace-size-passed-as-location', [(MECH, _LN, "        return b * self.prng.laplace(size)\n")], 'sampler-identity')
+T('C20', 'laplace-scaled-standard-draw', [(MECH, _LN, "        return b * self.prng.laplace(size=size)\n")])
+T('C20', 'gaussian-scaled-standard-draw', [(MECH, _GN, "        return sigma * self.prng.standard_normal(size)\n")])
+K('C20', 'gaussian-scaled-unit-draw-of-scale-sigma', [(MECH, _GN, "        return sigma * self.prng.normal(0, sigma, size)\n")], 'sampler-identity')
+_PAIRS = ("        for c1, c2 in itertools.combinations(cliques, 2):\n            wgt = len(set(c1) & set(c2))\n"
+          "            complete.add_edge(c1, c2, weight=-wgt)\n")
+_PAIRS_F = ("        for c1, c2 in itertools.combinations(cliques, 2):\n            wgt = len(set(c1) & set(c2))\n"
+            "            if wgt > 0:\n                complete.add_edge(c1, c2, weight=-wgt)\n")
+_PATH = "        complete.add_edges_from(zip(cliques, cliques[1:]), weight=0)\n"
+for _p in ('C01', 'C12'):
+    K(_p, 'weight-0-path-laid-after-the-pairs', [(JT, _PAIRS, _PAIRS_F + _PATH)], 'tree-connected')
+    T(_p, 'weight-0-path-laid-before-the-pairs', [(JT, _PAIRS, _PATH + _PAIRS_F)])
+    K(_p, 'overlapping-pairs-only-no-path', [(JT, _PAIRS, _PAIRS_F)], 'tree-connected')
+K('C11', 'clique-sets-from-the-measured-cliques', [(GM, "        cliques = [set(cl) for cl in self.cliques]\n", "        cliques = [set(cl) for cl in self.junction_tree.cliques]\n")], 'conditioning')
+T('C11', 'clique-sets-from-the-tree-object', [(GM, "        cliques = [set(cl) for cl in self.cliques]\n", "        cliques = [set(cl) for cl in self.junction_tree.maximal_cliques()]\n")])
+_FOLD = "                pre = sum(mu_f[cl][v] for cl in fac)\n"
+K('C18', 'fold-without-start-over-the-factors-of-a-variable', [(FG, "from functools import reduce\n", "from functools import reduce\nimport operator\n"),
+                                                                 (FG, _FOLD, "                pre = reduce(operator.add, (mu_f[cl][v] for cl in fac))\n")], 'conformance')
+T('C18', 'fold-without-start-behind-an-emptiness-guard', [(FG, "from functools import reduce\n", "from functools import reduce\nimport operator\n"),
+                                                            (FG, _FOLD, "                if len(fac) == 0: continue\n                pre = reduce(operator.add, (mu_f[cl][v] for cl in fac))\n")])
+T('C16', 'variable-without-factor-skipped', [(FG, _FOLD, "                if not fac: continue\n" + _FOLD)])
+_SUB = "        other = Factor(other.domain, np.where(other.values==-np.inf, 0, -other.values))\n        return self + other\n"
+K('C14', 'difference-leaves-out-every-infinite-subtrahend', [(F, _SUB, "        neg = np.negative(other.values)\n        neg = np.where(np.isinf(neg), 0, neg)\n        return self + Factor(other.domain, neg)\n")], 'difference-cells')
+T('C14', 'difference-mask-on-the-negated-subtrahend', [(F, _SUB, "        neg = np.negative(other.values)\n        neg = np.where(np.isposinf(neg), 0, neg)\n        return self + Factor(other.domain, neg)\n")])
+_SEL = "            print('Selected',cl,'Size',n,'Budget Used',rho_used/self.rho)\n"
+K('C06', 'history-on-the-mechanism-with-exact-residual', [(AIM, _SEL, _SEL + "            self.history = getattr(self, 'history', []) + [{'clique': cl, 'sigma': sigma, 'residual': np.linalg.norm(w-x, 1)}]\n")], 'public-sink')
+T('C06', 'history-on-the-mechanism-with-noisy-residual', [(AIM, _SEL, _SEL + "            self.history = getattr(self, 'history', []) + [{'clique': cl, 'sigma': sigma, 'residual': np.linalg.norm(w-y, 1)}]\n")])
+_EIG = "                    eig = eigsh(Q.H * Q, 1)[0][0]\n"
+_DENSE = ("                    if p <= 2:\n                        gram = (Q.H * Q).matmat(np.eye(p))\n                        eig = np.linalg.eigh(gram)[0][%s]\n"
+          "                    else:\n                        eig = eigsh(Q.H * Q, 1)[0][0]\n")
+K('C04', 'dense-small-case-takes-the-smallest-eigenvalue', [(INF, _EIG, _DENSE % '0')], 'lipschitz-form')
+T('C04', 'dense-small-case-takes-the-largest-eigenvalue', [(INF, _EIG, _DENSE % '-1')])
+_INIT = "        self.history = []\n"
+T('C13', 'write-only-record-reassigned-per-call', [(INF, _INIT, _INIT + "        self.last_total = None\n"),
+                                                    (INF, "        self.groups = defaultdict(lambda: [])\n",
+                                                     "        self.last_total = total\n        self.groups = defaultdict(lambda: [])\n")])
+
